@@ -120,7 +120,7 @@ class ProgGen:
                 op = r.choice(["+", "+", "-", "*", "*", "/", "%", "&", "|", "<<", ">>"])
                 a = self.expr(scope, "int", depth - 1)
                 b = self.expr(scope, "int", depth - 1)
-                if op in ("/", "%") and self.chance(0.85):
+                if op in ("/", "%") and self.chance(0.55):
                     b = str(r.randint(1, 9))
                 if op in ("<<", ">>") and self.chance(0.8):
                     b = str(r.randint(0, 8))
@@ -181,9 +181,14 @@ class ProgGen:
         return self.literal(scope, "int", depth)
 
     def small_index(self, scope, depth):
-        if self.chance(0.7):
+        c = self.r.random()
+        if c < 0.5:
             return str(self.r.randint(0, 2))
-        return self.expr(scope, "int", min(depth - 1, 1))
+        if c < 0.75:
+            call = self.call_expr(scope, "int", depth)
+            if call:
+                return call
+        return self.expr(scope, "int", max(min(depth - 1, 2), 0))
 
     def literal(self, scope, typ, depth):
         r = self.r
@@ -292,11 +297,45 @@ class ProgGen:
         scope.vars[name] = typ
         return "%s = %s" % (name, e)
 
+    def shadow_update(self, scope):
+        """x = x + 1 and friends where x is NOT (yet) this function's own variable: the
+        right-hand side reads the captured or global x, the assignment creates a local"""
+        if scope.kind != "func":
+            return None
+        outer = [n for n in self.visible(scope, "int") if n not in scope.vars]
+        if not outer:
+            return None
+        x = self.r.choice(outer)
+        scope.vars[x] = "int"
+        return self.r.choice(["%s = %s + 1", "%s = 1 + %s", "%s = %s * 2", "%s = %s - 1", "%s = %s + 10"]) % (x, x)
+
+    def multi_call(self, scope):
+        """several calls inside one expression: they share one Run, its context free list and stack"""
+        fs = [(n, a, k, rt) for n, (a, k, rt) in self.funcs.items() if k != "gen" and rt in ("int", "str", "arr", "bool")]
+        if not fs:
+            return None
+        parts = []
+        for _ in range(self.r.randint(2, 4)):
+            n, a, k, rt = self.r.choice(fs)
+            args = [str(self.r.randint(0, 5)) for _ in range(a)]
+            parts.append("%s(%s)" % (n, ", ".join(args)))
+        if self.chance(0.6):
+            return "[" + ", ".join(parts) + "]"
+        ints = [p for p in parts if self.funcs[p.split("(")[0]][2] == "int"]
+        if len(ints) >= 2:
+            return " + ".join(ints)
+        return "[" + ", ".join(parts) + "]"
+
     def cond(self, scope, depth):
         c = self.expr(scope, "bool", depth)
         return c
 
     def if_stmt(self, scope, depth, ctx):
+        if scope.kind == "func" and self.chance(0.15):
+            # a local that is assigned only on one path and read afterwards
+            v = self.fresh(NAMES, scope)
+            scope.vars[v] = "int"
+            return ["if %s %s = %s" % (self.cond(scope, 1), v, self.expr(scope, "int", 1)), v]
         c = self.cond(scope, min(depth, 2))
         t = self.stmt_list(scope, depth - 1, ctx, self.r.randint(1, 2))
         if self.chance(0.5):
@@ -360,8 +399,16 @@ class ProgGen:
         c = r.random()
         if depth <= 0:
             c = c * 0.45
-        if c < 0.28:
+        if c < 0.26:
             return self.assign_stmt(scope, min(depth, 3), ctx.get("in_func"))
+        if c < 0.30:
+            s2 = self.shadow_update(scope)
+            if s2:
+                return s2
+        if c < 0.34:
+            m = self.multi_call(scope)
+            if m:
+                return m
         if c < 0.4:
             return self.expr(scope, r.choice(["int", "int", "str", "arr", "bool", "float"]), min(depth, 3))
         if c < 0.45 and self.allow_io:
@@ -432,10 +479,39 @@ class ProgGen:
             scope.vars[loc] = "int"
             stmts.append("%s = %s" % (loc, self.expr(scope, "int", 1)))
             inner = Scope("func", scope)
-            ip = self.fresh(NAMES, inner)
-            inner.vars[ip] = "int"
-            stmts.append("(%s) -> %s" % (ip, self.expr(inner, "int", 2)))
-            rt = "fun1"
+            iar = r.randint(0, 1)
+            ips = []
+            for _ in range(iar):
+                # parameter names that often shadow an outer name
+                cands = list(scope.vars) + list(self.glob.vars) if self.chance(0.4) else []
+                cands = [c for c in cands if c not in BUILTINS and c not in self.funcs]
+                ip = r.choice(cands) if cands else self.fresh(NAMES, inner)
+                inner.vars[ip] = "int"
+                ips.append(ip)
+            ictx = {"in_func": True, "ret": "int", "gen": False}
+            form = r.random()
+            if form < 0.35:
+                ibody = self.expr(inner, "int", 2)
+            elif form < 0.75:
+                # a closure that loops over something its captured variables determine
+                acc = self.fresh(["s", "acc", "t", "u"], inner)
+                inner.vars[acc] = "int"
+                lv = self.fresh(["i", "j", "e"], inner)
+                cap = [n for n in scope.vars if scope.vars[n] == "int"]
+                hi = r.choice(cap) if cap else "3"
+                inner.vars[lv] = "int"
+                inner.loop_counters.add(lv)
+                it = r.choice(["fromto(0, %s)" % hi, "fromto(%s, %s + 3)" % (hi, hi), "elems([%s, 1, 2])" % hi])
+                ist = ["%s = 0" % acc, "for %s <- %s %s = %s + %s" % (lv, it, acc, acc, lv)]
+                ist += self.stmt_list(inner, 1, ictx, r.randint(0, 1))
+                ist.append(acc)
+                ibody = "{\n" + "\n".join(ist) + "\n}"
+            else:
+                ist = self.stmt_list(inner, 2, ictx, r.randint(1, 2))
+                ist.append(self.expr(inner, "int", 2))
+                ibody = "{\n" + "\n".join(ist) + "\n}"
+            stmts.append("(%s) -> %s" % (", ".join(ips), ibody))
+            rt = "fun%d" % iar
         else:
             stmts += self.stmt_list(scope, 3, ctx, r.randint(1, 3))
             stmts.append(self.expr(scope, rt, 2) if self.chance(0.7) else self.stmt(scope, 2, ctx) if True else "")
@@ -446,12 +522,12 @@ class ProgGen:
         return "%s = (%s) -> %s" % (name, ", ".join(params), body)
 
     def use_closure_maker(self):
-        makers = [(n, a) for n, (a, k, rt) in self.funcs.items() if k == "clos"]
+        makers = [(n, a, rt) for n, (a, k, rt) in self.funcs.items() if k == "clos"]
         if not makers:
             return None
-        n, a = self.r.choice(makers)
+        n, a, rt = self.r.choice(makers)
         cname = self.fresh(FNAMES, self.glob)
-        self.funcs[cname] = (1, "pure", "int")
+        self.funcs[cname] = (int(rt[3:]) if rt.startswith("fun") else 1, "pure", "int")
         self.glob.vars[cname] = "fun"
         return "%s = %s(%s)" % (cname, n, ", ".join(str(self.r.randint(0, 5)) for _ in range(a)))
 
